@@ -64,11 +64,16 @@ func (propC15) Gen(seed uint64, ex map[string]bool) interface{} {
 	sc := &c15Sc{WorldSeed: simrt.Mix(seed, 5)}
 	kinds := []string{"simts", "simts", "array", "fs", "compiled", "chain"}
 	nl := r.Range(1, 3)
+	maxOps, maxNames := 40, 3
+	if ex["tier:thorough"] {
+		nl = r.Range(1, 4)
+		maxOps, maxNames = 150, 4
+	}
 	for i := 0; i < nl; i++ {
 		sc.Loaders = append(sc.Loaders, pick(r, kinds))
 	}
-	sc.Names = []string{"a", "b", "c"}[:r.Range(1, 3)]
-	n := r.Range(6, 40)
+	sc.Names = []string{"a", "b", "c", "d"}[:r.Range(1, maxNames)]
+	n := r.Range(6, maxOps)
 	cacheOn := true
 	for i := 0; i < n; i++ {
 		name := pick(r, sc.Names)
